@@ -3,6 +3,7 @@
   `C07Parts`: type / size / length facts of every constructor; `C07More`: byte-exact images and accessor read-back for all
   argument values; `Layout`: the source-derived ID and layout facts.
 -/
+import Mb2.Props.FnsTblFixed
 import Mb2.Props.FnsTblMbi
 import Mb2.Props.FnsTblHdr
 import Mb2.Props.FnsTblTags
